@@ -2,6 +2,8 @@ package batching
 
 import (
 	"context"
+
+	"reduction.dev/reduction/util/verifhook"
 )
 
 type BatchFetcher[T, R any] func(ctx context.Context, events []T) ([]R, error)
@@ -69,6 +71,8 @@ func (d *ReorderFetcher[T, R]) Flush(ctx context.Context) {
 
 // flush the current batch and then asynchronously run the `FetchBatch` callback.
 func (d *ReorderFetcher[T, R]) flush(ctx context.Context, token BatchToken) {
+	verifhook.At("batching.flush.enter")
+	defer verifhook.At("batching.flush.exit")
 	events := d.batcher.Flush(token)
 	if d.batcher == nil {
 		panic("batcher became nil")
@@ -77,13 +81,16 @@ func (d *ReorderFetcher[T, R]) flush(ctx context.Context, token BatchToken) {
 		return
 	}
 
+	verifhook.At("batching.flush.between")
 	seqNum := d.buffer.Reserve()
 	go func() {
+		defer verifhook.At("batching.fetch.exit", seqNum)
 		result, err := d.fetchBatch(ctx, events)
 		if err != nil {
 			d.errChan <- err
 		}
 		d.buffer.Add(seqNum, result)
+		verifhook.At("batching.fetch.beforeDrain", seqNum)
 		for resp := range d.buffer.Drain() {
 			for _, result := range resp {
 				d.Output <- result
